@@ -31,7 +31,17 @@ def committed_goal_case(rep, drv, rnd, i):
         ('t7', [V('X'), V('L')], ('conj', ('call', 'findall', [V('Z'), ('F', 'first', [V('Z')]), V('L')]), ('call', 'first', [V('X')]))),
         ('t8', [V('X')], ('disj', ('ite', ('call', 'findall', [V('X'), ('F', 'first', [V('X')]), ('P', [('_',)], ('_',))]), ('call', '=', [V('X'), ('A', 'kept')])), 'fail')),
     ]
-    chosen = rnd.sample(callers, rnd.randint(3, len(callers)))
+    callers += [
+        # templates that keep unbound variables: every element of the result is a copy of its own
+        ('t9', [V('L'), V('Y')], ('conj', ('call', 'findall', [('F', 'pair', [V('X'), V('Y')]), ('F', 'it', [V('X')]), V('L')]),
+                                  ('call', '=', [V('Y'), ('A', 'late')]))),
+        ('t10', [V('L'), V('Y')], ('conj', ('call', 'findall', [('F', 'f', [V('Y')]), ('F', 'it', [('_',)]), V('L')]),
+                                   ('call', '=', [V('L'), ('P', [('F', 'f', [('A', 'one')])], ('_',))]))),
+        ('t11', [V('L')], ('conj', ('call', 'findall', [V('Z'), ('F', 'it', [('_',)]), V('L')]), ('call', '=', [V('L'), ('P', [('A', 'k')], ('_',))]))),
+        ('t12', [V('L'), V('Y')], ('conj', ('call', '=', [V('T'), ('F', 'g', [V('Y'), V('W')])]),
+                                   ('conj', ('call', 'findall', [V('T'), ('F', 'it', [V('W')]), V('L')]), ('call', '=', [V('Y'), ('A', 'after')])))),
+    ]
+    chosen = rnd.sample(callers, rnd.randint(4, len(callers)))
     prog += [(n, h, b, True) for n, h, b in chosen]
     ops = [('load', 'overwrite', prog)]
     qs = [('query', n, ('all',), [[Sym('v'), j] for j in range(len(h))]) for n, h, b in chosen]
